@@ -15,7 +15,7 @@ PROP = {'counts': {'quick': 500, 'thorough': 50000},
          'scan = real primary state after the same operations; non-trivial = log >= 4 entries with a '
          'multi-entry transaction, >= 3 deliveries, >= 3 entries applied and at least one duplicate / overlap / '
          'gap / failure / reset / restart; distinct by case text. Plus kind=emit (real Primary driven through '
-         'StreamWAL/Acknowledge/NegativeAcknowledge with an in-memory stream; 4 generated + 2 corpus; never excused '
+         'StreamWAL/Acknowledge/NegativeAcknowledge with an in-memory stream; 7-8 generated (transaction straddling the 100-entry limit, mostly as the newest thing in the log, sliding windows, later start numbers) + 5 corpus; never excused '
          'by a known-finding class) and kind=replica (real Replica '
          'over loopback gRPC against a scripted primary) corpus scenarios: oracle only',
  'trusted_base': ['compression codecs (klauspost zstd, snappy) are external: C13_wire assumes decompress (compress p) = p '
